@@ -90,6 +90,24 @@ theorem float_value_preserved_text (l : Lit) :
     · exact Or.inl (by simp [textLit, h])
   | _ => exact Or.inl rfl
 
+/-- THE NUMERIC VALUE SURVIVES (audit C16-M1): with `Lit.val` = the exact dyadic value `n·2^e` of a
+number literal (`Flt.val`: an exact rational, zero of either sign is `(0,0)`), neither printer
+changes the value of any number – only, for integral values, its int-vs-float syntax class. -/
+theorem number_value_preserved_json (l : Lit) : (encLit l).val = l.val := val_encLit l
+
+/-- … and the same for the MRO text printer followed by the lexer -/
+theorem number_value_preserved_text (l : Lit) : (textLit l).val = l.val := val_textLit l
+
+/-- `Lit.val` really computes values: 2.5 = 5·2^-1, 1234567.0 = 1234567, -0.0 = 0, -2^63 -/
+example : Lit.val (.flt ⟨false, 5, -1⟩) = some (5, -1) ∧ Lit.val (.flt ⟨false, 1234567, 0⟩) = some (1234567, 0)
+    ∧ Lit.val (.flt ⟨true, 0, 0⟩) = some (0, 0) ∧ Lit.val (.flt ⟨true, 1, 63⟩) = some (-9223372036854775808, 0)
+    ∧ Lit.val (.int 7) = some (7, 0) ∧ Lit.val (.str []) = none := by decide
+
+/-- the ∀-statements range over every representative; the float64 decomposition is the canonical
+one (`m` odd): `4·2^-2` is a non-canonical spelling of `1.0` which `isIntegral` does not recognise -/
+example : Flt.canonical ⟨false, 4, -2⟩ = false ∧ Flt.canonical ⟨false, 5, -1⟩ = true
+    ∧ Flt.isIntegral ⟨false, 4, -2⟩ = false := by decide
+
 /-- What is really lost, 1: the float syntax of an integral value.  The MRO
 literal `1234567.0` (a `FloatExp`) is marshalled as `1234567` and read back as
 an integer; `2.5` stays a float; 2^63 (outside int64) stays a float. -/
@@ -123,8 +141,10 @@ theorem encode_convert (t : TypeId) (j : J) (e : Exp) (h : convert t j = some e)
 
 /-- … and `convertToExp` does yield an expression whenever every integer
 literal fits int64; for JSON already in normal form the round trip is the
-identity. -/
-theorem encode_convert_exact (t : TypeId) (j : J) (hi : jIntsOk j = true) :
+identity. 
+`_partial`: the hypothesis `jIntsOk` (integer-syntax numbers fit int64) restricts the domain; without it
+the statement is false: `int_2_63_not_convertible` (2^63 has no expression: `parseInt` cannot hold it). -/
+theorem encode_convert_exact_partial (t : TypeId) (j : J) (hi : jIntsOk j = true) :
     ∃ e, convert t j = some e ∧ encode e = normJ j ∧ (normJ j = j → encode e = j) := by
   obtain ⟨e0, h0⟩ := ofJ_isSome j hi
   refine ⟨fix t.base t.arrayDim t.mapDim e0, by simp [convert, h0], ?_, ?_⟩
@@ -147,12 +167,36 @@ theorem int_2_63_not_convertible (t : TypeId) :
 
 /-- Expression → JSON → expression: a literal that is well-typed at the
 parameter's type `t` (shape and struct-vs-map flags as the type dictates)
-comes back unchanged up to float normalisation. -/
-theorem convert_encode (t : TypeId) (e : Exp)
+comes back unchanged up to float normalisation. 
+`_partial`: `intsOk` (integer literals fit int64 – true of anything the MRO parser built) restricts the
+domain of "all values"; `wt` is the property's own quantifier (values of the declared type). -/
+theorem convert_encode_partial (t : TypeId) (e : Exp)
     (hw : wt t.base t.arrayDim t.mapDim e = true) (hi : intsOk e = true) :
     convert t (encode e) = some (normE e) := by
   simp only [convert, ofJ_encode e hi, Option.map_some, erase_normE, fix_normE,
     fix_erase_wt e _ _ _ hw]
+
+/-- JSON OF THE DECLARED TYPE CONVERTS TO A WELL-TYPED LITERAL (audit C16-M2): if the JSON value has
+the shape of the parameter's type (`jWt`: arrays under array dims, objects under typed maps, objects
+with declared members only under struct types, any object under the untyped `map`, scalars or `null`
+elsewhere) and its integers fit int64, then `convertToExp` yields an expression that is well-typed at
+that type – it carries exactly the struct-vs-map flags the compiler demands, so the printed call
+type-checks as far as literal shapes go – and that marshals back to the value.  (This is the direction
+in which the type-directed decision matters; `encode_convert` alone does not exercise it.) -/
+theorem convert_wt (t : TypeId) (j : J) (hi : jIntsOk j = true)
+    (hw : jWt t.base t.arrayDim t.mapDim j = true) :
+    ∃ e, convert t j = some e ∧ wt t.base t.arrayDim t.mapDim e = true ∧ encode e = normJ j := by
+  obtain ⟨e0, h0⟩ := ofJ_isSome j hi
+  refine ⟨fix t.base t.arrayDim t.mapDim e0, by simp [convert, h0], wt_fix_ofJ j e0 _ _ _ h0 hw, ?_⟩
+  rw [encode_fix, encode_ofJ j e0 h0]
+
+/-- the typing hypothesis is necessary: a struct value with an undeclared key converts to an
+expression the compiler rejects (`wt` false) -/
+theorem convert_undeclared_member_not_wt :
+    jWt (.struct (.cons [0x61] .scalar 0 0 .nil)) 0 0 (.obj (.cons [0x78] (.lit (.int 1)) .nil)) = false
+    ∧ (convert ⟨.struct (.cons [0x61] .scalar 0 0 .nil), 0, 0⟩ (.obj (.cons [0x78] (.lit (.int 1)) .nil))).map
+        (wt (.struct (.cons [0x61] .scalar 0 0 .nil)) 0 0) = some false := by
+  constructor <;> rfl
 
 /-- Without any typing hypothesis the values still survive: the result differs
 from the original at most in struct-vs-map flags (and float normalisation). -/
@@ -199,8 +243,9 @@ parameter's type `t`, or a split binding whose operand is what the compiler
 accepts for a split over `t` (`splitOperandOk`: an array of `t`-values or a map
 literal of `t`-values – also when `t` is itself a typed map, the case repaired
 as finding C16-N7 – or `null`), is rebuilt with the same split status and the
-same value (up to float normalisation). -/
-theorem binding_roundtrip (t : TypeId) (a : Arg)
+same value (up to float normalisation). 
+`_partial`: as `convert_encode_partial` (`intsOk`). -/
+theorem binding_roundtrip_partial (t : TypeId) (a : Arg)
     (hw : match a with
       | .plain e => wt t.base t.arrayDim t.mapDim e = true
       | .split e => splitOperandOk t e = true)
@@ -209,13 +254,13 @@ theorem binding_roundtrip (t : TypeId) (a : Arg)
       some (match a with | .plain e => .plain (normE e) | .split e => .split (normE e)) := by
   cases a with
   | plain e =>
-    simp [dataOfBinding, Arg.isSplit, encodeArg, buildBinding, convert_encode t e hw hi]
+    simp [dataOfBinding, Arg.isSplit, encodeArg, buildBinding, convert_encode_partial t e hw hi]
   | split e =>
     simp only [Arg.value] at hi
     cases e with
     | lit l =>
       dsimp only [splitOperandOk] at hw
-      have := convert_encode t (.lit l) hw hi
+      have := convert_encode_partial t (.lit l) hw hi
       simp only [dataOfBinding, Arg.isSplit, encodeArg, buildBinding, if_true, JKvs.findSplit, isSplitKey_splitKey]
       simp only [encode] at this ⊢
       simp [convertSplit, splitSourceType, this]
@@ -371,7 +416,7 @@ private def sV : Exp :=
     (.cons kGrid (.arr (.cons (.arr (.cons (.lit (.int 1)) (.cons (.lit .null) .nil)))
         (.cons (.arr .nil) .nil))) .nil))))
 
-/-- `convert_encode`'s hypotheses hold for a nested struct with a typed map of
+/-- `convert_encode_partial`'s hypotheses hold for a nested struct with a typed map of
 structs and a two-dimensional array (also inside an array of such structs). -/
 example : wt (.struct sT) 0 0 sV = true ∧ intsOk sV = true := by decide
 example : wt (.struct sT) 1 0 (.arr (.cons sV (.cons (.lit .null) .nil))) = true := by decide
@@ -396,7 +441,7 @@ example : ∃ bs, buildCall [(kX, ⟨.scalar, 0, 0⟩), (kY, ⟨.struct innerT, 
 example : buildBinding true ⟨.struct innerT, 0, 0⟩
     (.obj (.cons splitKey (.obj (.cons kK (.obj (.cons kA (.lit (.int 1)) .nil)) .nil)) .nil))
     = some (.split (.map false (.cons kK (.map true (.cons kA (.lit (.int 1)) .nil)) .nil))) := by rfl
-/-- `binding_roundtrip`'s hypothesis for a split operand: `int x` split over `[1, 2]` and over `{"k": 1}` -/
+/-- `binding_roundtrip_partial`'s hypothesis for a split operand: `int x` split over `[1, 2]` and over `{"k": 1}` -/
 example : wt (collectionType ⟨.scalar, 0, 0⟩ (.arr (.cons (.lit (.int 1)) .nil))).base
     (collectionType ⟨.scalar, 0, 0⟩ (.arr (.cons (.lit (.int 1)) .nil))).arrayDim
     (collectionType ⟨.scalar, 0, 0⟩ (.arr (.cons (.lit (.int 1)) .nil))).mapDim
@@ -465,7 +510,7 @@ type the result is the (unparseable) struct literal `{__reference__: "A.b"}` -/
 example : convert ⟨.struct innerT, 0, 0⟩ (encodeRef [0x41, 0x2E, 0x62])
     = some (.map true (.cons refKey (.lit (.str [0x41, 0x2E, 0x62])) .nil)) := by rfl
 
-/-- `binding_roundtrip` for the repaired case: `map<INNER> m = split {"k": {"a": {a: 1}}}` -/
+/-- `binding_roundtrip_partial` for the repaired case: `map<INNER> m = split {"k": {"a": {a: 1}}}` -/
 example : splitOperandOk ⟨.struct innerT, 0, 1⟩
     (.map false (.cons kK (.map false (.cons kA (.map true (.cons kA (.lit (.int 1)) .nil)) .nil)) .nil))
     = true := by decide
@@ -579,8 +624,10 @@ open Martian.ShellQuote (validUtf8)
 `encoding/json` writes for a valid UTF-8 string – with HTML escaping
 (`json.Marshal`, also when it re-compacts a `RawMessage`) or without
 (`SetEscapeHTML(false)`) – is read back exactly by `unquoteBytes`.  For ALL
-valid UTF-8 strings. -/
-theorem string_leaf_json_to_mro (html : Bool) (s : Str) (h : validUtf8 s = true) :
+valid UTF-8 strings. 
+`_partial`: for valid UTF-8 only; for other byte strings the statement is false (`invalid_utf8_not_preserved`:
+each offending byte becomes U+FFFD). -/
+theorem string_leaf_json_to_mro_partial (html : Bool) (s : Str) (h : validUtf8 s = true) :
     unquoteBytes (jsonEncodeString html s) = some s :=
   unquote_jsonEncode html s h
 
@@ -598,20 +645,26 @@ theorem string_leaf_any_json_writer (body s : Str) (hv : validUtf8 body = true)
 `_outs`, whose string tokens reach the MRO lexer unchanged through
 `Fork.writeInvocation`): `\\uXXXX` for everything outside `' '..'~'`, a
 surrogate pair of escapes for every non-BMP rune.  For ALL valid UTF-8
-strings. -/
-theorem string_leaf_python_writer (s : Str) (h : validUtf8 s = true) :
+strings. 
+`_partial`: for valid UTF-8 only; for other byte strings the statement is false (`invalid_utf8_not_preserved`:
+each offending byte becomes U+FFFD). -/
+theorem string_leaf_python_writer_partial (s : Str) (h : validUtf8 s = true) :
     unquoteBytes (pyEncodeString s) = some s :=
   unquote_pyEncode s h
 
 /-- Python → Go: `encoding/json` reads what Python's `json.dumps` writes (a stage's
-`_outs` read by mrp) as the string, for ALL valid UTF-8 strings. -/
-theorem string_leaf_python_to_go (s : Str) (h : validUtf8 s = true) :
+`_outs` read by mrp) as the string, for ALL valid UTF-8 strings. 
+`_partial`: for valid UTF-8 only; for other byte strings the statement is false (`invalid_utf8_not_preserved`:
+each offending byte becomes U+FFFD). -/
+theorem string_leaf_python_to_go_partial (s : Str) (h : validUtf8 s = true) :
     jsonDecodeString (pyEncodeString s) = some s :=
   jsonDecode_pyEncode s h
 
 /-- MRO → JSON, (b): `MarshalJSON`/`EncodeJSON` print every string and map key
-with `quoteString`; a JSON reader decodes that text to the string. -/
-theorem string_leaf_mro_to_json (s : Str) (h : validUtf8 s = true) :
+with `quoteString`; a JSON reader decodes that text to the string. 
+`_partial`: for valid UTF-8 only; for other byte strings the statement is false (`invalid_utf8_not_preserved`:
+each offending byte becomes U+FFFD). -/
+theorem string_leaf_mro_to_json_partial (s : Str) (h : validUtf8 s = true) :
     jsonDecodeString (quoteString s) = some s :=
   jsonDecode_quoteString s h
 
@@ -620,8 +673,10 @@ byte for byte, for every byte string (invalid UTF-8 included: `\ufffd`). -/
 theorem quoteString_is_json_encoder (s : Str) : jsonEncodeString false s = quoteString s :=
   jsonEncode_false_eq s
 
-/-- `encoding/json` reads its own output back. -/
-theorem json_encode_decode (html : Bool) (s : Str) (h : validUtf8 s = true) :
+/-- `encoding/json` reads its own output back. 
+`_partial`: for valid UTF-8 only; for other byte strings the statement is false (`invalid_utf8_not_preserved`:
+each offending byte becomes U+FFFD). -/
+theorem json_encode_decode_partial (html : Bool) (s : Str) (h : validUtf8 s = true) :
     jsonDecodeString (jsonEncodeString html s) = some s :=
   jsonDecode_jsonEncode html s h
 
@@ -629,8 +684,10 @@ theorem json_encode_decode (html : Bool) (s : Str) (h : validUtf8 s = true) :
 JSON text (either Go writer) → MRO lexer → `quoteString` (the formatter's and
 `MarshalJSON`'s printer) → MRO lexer again and → JSON decoder: every leg
 returns the same string, and the text reaches a fixed point (`quoteString s`)
-after one leg. -/
-theorem string_leaf_roundtrip (html : Bool) (s : Str) (h : validUtf8 s = true) :
+after one leg. 
+`_partial`: for valid UTF-8 only; for other byte strings the statement is false (`invalid_utf8_not_preserved`:
+each offending byte becomes U+FFFD). -/
+theorem string_leaf_roundtrip_partial (html : Bool) (s : Str) (h : validUtf8 s = true) :
     ∃ s1, unquoteBytes (jsonEncodeString html s) = some s1
       ∧ unquoteBytes (quoteString s1) = some s
       ∧ jsonDecodeString (quoteString s1) = some s
